@@ -48,16 +48,28 @@ class Enc:
 
 
 class CipherModel:
+    """AES-CTR as an algebra with its stream position: a cipher object is stateful - a second call continues the keystream"""
     def __init__(self, key, iv):
         self.key, self.iv = key, iv
+        self.pos = 0
 
     def abs_attr(self, it, a, node):
+        def length(x):
+            n = it.models.bytes_len(it, x)
+            return n.v if isinstance(n, K) else 0
         if a == 'encrypt':
-            return Native(lambda it_, args, kw, n: Term('aesctr', self.key, self.iv, args[0]), 'aes.encrypt')
+            def enc(it_, args, kw, n):
+                t = Term('aesctr', self.key, self.iv, args[0], K(self.pos))
+                self.pos += length(args[0])
+                return t
+            return Native(enc, 'aes.encrypt')
         if a == 'decrypt':
             def dec(it_, args, kw, n):
                 x = args[0]
-                if isinstance(x, Term) and x.op == 'aesctr' and repr(it_.vkey(x.a[0])) == repr(it_.vkey(self.key)) and repr(it_.vkey(x.a[1])) == repr(it_.vkey(self.iv)):
+                at = self.pos
+                self.pos += length(x)
+                if isinstance(x, Term) and x.op == 'aesctr' and repr(it_.vkey(x.a[0])) == repr(it_.vkey(self.key)) and repr(it_.vkey(x.a[1])) == repr(it_.vkey(self.iv)) \
+                        and isinstance(x.a[3], K) and x.a[3].v == at:
                     return x.a[2]
                 return Term('aesctr_garbage', self.key, self.iv, x)
             return Native(dec, 'aes.decrypt')
@@ -317,6 +329,23 @@ def check(run):
             except RaiseEx as e:
                 run.fail('D2', 'AdnlChannel.encrypt/decrypt', f'{oname} {sname}: raises {e}', we)
 
+    # a packet must decrypt on its own: the same plaintext sent twice, the peer sees only the second copy (or sees one copy twice)
+    it = mk(prog)
+    A, B = peer(prog, it, 'A'), peer(prog, it, 'B')
+    ida, idb = K(b'\x09' * 32), K(b'\x01' * 32)
+    chA = it.construct(AC, [A, server_view(prog, it, B), ida, idb], {})
+    chB = it.construct(AC, [B, server_view(prog, it, A), idb, ida], {})
+    P = Sym('PLAINTEXT', ty='bytes', n=100, key=('plain',))
+    try:
+        p1 = Rope.of(it, cm.call_method(it, chA, 'encrypt', P))
+        p2 = Rope.of(it, cm.call_method(it, chA, 'encrypt', P))
+        second = cm.call_method(it, chB, 'decrypt', p2.cut(it, 64, p2.n).simplify(), p2.cut(it, 32, 64).simplify())
+        again = cm.call_method(it, chB, 'decrypt', p2.cut(it, 64, p2.n).simplify(), p2.cut(it, 32, 64).simplify())
+        ok = second is P and again is P
+        why = f'same plaintext encrypted twice; the peer decrypts the second packet to {vrepr(second)[:40]} and the same packet again to {vrepr(again)[:40]} (both must be the plaintext: every packet is keyed by its own checksum from position 0)'
+    except RaiseEx as e:
+        ok, why = False, f'raises {e}'
+    run.check(ok, 'D2', 'AdnlChannel.encrypt/decrypt[repeated packet]' if not ok else 'repeated plaintext / duplicated packet', why, we)
     # ---- D3 signatures
     ws = prog.where(prog.func('verify_sign'))
     it = mk(prog)
